@@ -446,6 +446,9 @@ def run_race_engine(ctx, spec):
     seen_cls = {}
     for key, rep in sorted(pairs.items()):
         hit = [c for c, (rx, _) in classes.items() if rx.search(key)]
+        if "kelindar" not in rep and "(*" not in key:
+            ctx.notes.append("race report without a kelindar/column frame (harness-internal), ignored: " + key)
+            continue
         if hit:
             seen_cls.setdefault(hit[0], []).append(key)
         else:
@@ -627,7 +630,36 @@ def run_ttl_engine(ctx, spec):
         ctx.violation("ttl", f, data={"engine": "ttl", "seed": ctx.seed % 1000, "failure": f})
 
 
-ENGINES = {"ttl": run_ttl_engine, "hist": run_hist_engine, "race": run_race_engine, "persist": run_persist_engine, "alloc": run_alloc_engine, "codec": run_codec_engine, "sched": run_sched_engine}
+def run_bitmap_engine(ctx, spec):
+    """C04 word level: real kelindar/bitmap And/AndNot/Or on selection windows vs coq/Bitmap.v"""
+    n = spec["quick"] if ctx.tier == "quick" else spec["thorough"]
+    out = os.path.join(CACHE, "run", f"{ctx.pid}_bitmap")
+    if os.path.exists(out):
+        shutil.rmtree(out)
+    vlib.sh([os.path.join(CACHE, "harness"), "bitmap", "--seed", str(ctx.seed), "--n", str(n), "--out", out], timeout=1200)
+    s = json.load(open(os.path.join(out, "summary.json")))
+    bad = []
+    for sh_ in s["shards"]:
+        p = subprocess.run(["timeout", "1200", "coqc", "-Q", COQ, "ColumnV", sh_], cwd=out, stdout=subprocess.PIPE, stderr=subprocess.STDOUT, text=True)
+        m = re.search(r"M\s*=\s*\[(.*?)\]\s*:\s*list", p.stdout, re.S)
+        if p.returncode != 0 or not m:
+            ctx.violation("correspondence", "Bitmap.v could not be evaluated on the recorded windows: " + p.stdout[-1200:], found_input=False)
+            continue
+        bad += [(sh_, int(x)) for x in re.findall(r"(\d+)%nat", m.group(1))]
+    ctx.checker_cmds.append(f".cache/harness bitmap --seed {ctx.seed} --n {n}; coqc <shards>   # Bitmap.v vs kelindar/bitmap on selection windows")
+    cov = ctx.coverage
+    cov["evaluations"] += s["cases"]
+    cov["distinct_nontrivial"] += s["cases"]
+    cov.setdefault("engines", []).append({"engine": "bitmap", "cases": s["cases"], "ops": s["ops"], "shapes": s["shapes"], "model_disagreements": len(bad)})
+    cov["samples"] += [{"engine": "bitmap", "case(op,window,source,result)": x[:400]} for x in (s.get("samples") or [])[:1]]
+    for sh_, k in bad[:3]:
+        ctx.violation("bitmap", f"And/AndNot/Or on a selection window differs from the word-level model (case {k} of {os.path.basename(sh_)}, seed {ctx.seed})",
+                      data={"engine": "bitmap", "seed": ctx.seed, "shard": sh_, "case": k})
+    for o in (s.get("writes_outside_window") or [])[:3]:
+        ctx.violation("bitmap", o, data={"engine": "bitmap", "seed": ctx.seed})
+
+
+ENGINES = {"bitmap": run_bitmap_engine, "ttl": run_ttl_engine, "hist": run_hist_engine, "race": run_race_engine, "persist": run_persist_engine, "alloc": run_alloc_engine, "codec": run_codec_engine, "sched": run_sched_engine}
 S = lambda scen, q, t, **kw: dict(engine="sched", scenarios=scen, quick=q, thorough=t, **kw)
 
 H = lambda profile, q, t, **kw: dict(engine="hist", profile=profile, quick=q, thorough=t, **kw)
@@ -639,7 +671,7 @@ PROPS = {
                 rule="histories with 50% rolled back transactions mixing successful and failing inserts; non-trivial = at least one abort, one commit and an insert"),
     "C03": dict(engines=[H("index", 70, 900)],
                 rule="histories with indexes created/dropped mid-history, replicas and restores; non-trivial = >=3 commits with deletes or merges"),
-    "C04": dict(engines=[H("filter", 80, 1000)],
+    "C04": dict(engines=[H("filter", 80, 1000), dict(engine="bitmap", quick=400, thorough=6000)],
                 rule="histories with filter chains and terminals; non-trivial = a chain operator and a terminal in the history"),
     "C05": dict(engines=[dict(engine="codec", quick=300, thorough=6000), H("mix", 30, 300)],
                 rule="random op sequences over {delete, insert, put, merge} x {0,2,4,8-byte, bytes} x offset moves, written to the real buffer; every case is distinct by construction (independent PRNG streams) and non-trivial (>=1 op); the model must produce the same bytes"),
